@@ -1,5 +1,5 @@
 """Per-property claims (source of MANIFEST.json; regenerate with tools/gen_manifest.py)."""
-SOURCE_COMMITS = []
+SOURCE_COMMITS = ["2a19720"]
 NOTES = ("All checks: ./check <id> --tier quick|thorough; setup builds the Coq development (full .vo), extracts the model to OCaml "
          "and compiles the driver. known_findings.json lists recorded defects (kind known) and repaired ones (kind fixed).")
 NOT_APPLICABLE = {}
@@ -7,6 +7,20 @@ COMMON_NOTE = ("Trusted: Coq 8.16.1 kernel (+vm_compute), extraction (ExtrOcamlB
                "CPython/torch as referents. Theorems are about the hand-written model; the model<->code tie is this run's differential "
                "correspondence, bounded by its generators (distribution in the evidence). ")
 CHECKS = {
+    "C03": {
+        "text": ("Proof (Coq): for batch shapes of ANY rank and ANY Ellipsis-free index tuple (ints, slices, None, integer arrays of any shape, "
+                 "0-dim integer tensors, boolean masks of any rank, any number of advanced indices anywhere) that torch accepts, the batch size the "
+                 "library computes (_getitem_batch_size, both passes) equals torch's shape rule (two-stage spec with the adjacent-subspace rule); "
+                 "the library's Ellipsis expansion equals the spec's; the same index applied to an entry of shape batch++features yields "
+                 "result++features (every entry and nested node gets the computed batch size as prefix, feature dims untouched); rejection is "
+                 "proved in its partial form (index within the batch rank) and the full form is refuted by a witness (finding D25). "
+                 "Tie: the torch spec is re-validated against real torch and the extracted model against the real __getitem__ on ~28k (quick) / "
+                 "~350k (thorough) generated reads and writes per run; the oracle compares td[idx] and td[idx]=v with entry[idx] and entry[idx]=v "
+                 "leaf by leaf (shape, content, memory sharing) directly on the implementation."),
+        "note": COMMON_NOTE + "Which elements tensor[idx] selects is torch's (trusted); Spec/C03_TorchIndex.v is my statement of torch's shape rule, "
+                "validated against torch in every run. Known findings D3, D25, D30 are listed in known_findings.json.",
+        "technique": "Coq theorems (induction on index tuples; invariant linking the code's two passes to torch's adjacent-subspace rule) + differential correspondence",
+    },
     "C18": {
         "text": ("Proof (Coq): for ALL slices/lengths the compile-only _slice_indices equals CPython's slice.indices; for ALL key objects the "
                  "Python-branch unravel functions equal the native ones and equal the in-order fringe on well-formed keys; both _parse_batch_size "
